@@ -22,7 +22,7 @@ import (
 	"github.com/opencontainers/go-digest"
 	"pgregory.net/rapid"
 
-	"verif/harness/internal/vt"
+	"verif/harness/vt"
 )
 
 func TestMain(m *testing.M) { vt.Main(m) }
